@@ -82,7 +82,22 @@ for _k in _SO_KINDS:
         vars=[("zs", "Int", -3, 3), ("q", "Int", -3, 6), ("z", "Int", -3, 6), ("y", "Int", -3, 3), ("x", "Int", -3, 3)],
         gen="Gen.so_%s_img zs q z y x" % _k,
         model="(let r := (⟨.%s, 0, 0, zs, q⟩ : C03.SymOp).onVoxel ⟨z, y, x⟩; (r.z, r.y, r.x))" % _k)
-SO_KERNELS = [k for k in SEARCH if k.startswith("so_")]
+
+_IDX = "let idx : C03.Kind → Int := fun k => match k with | .trivial => 0 | " + " | ".join(".%s => %d" % (k, i + 1) for i, k in enumerate(_SO_KINDS))
+_SYMY = "let y : C03.Sym := ⟨V, d90, d180, sw, sws, shz, 2, fun _ => nppa, fun t => 2 * t, fun _ => zo⟩"
+_TUP = "(idx o.kind, o.view180, o.axShift, o.zShift, o.q)"
+_TREEV = [("V", "Int", 0, 13), ("d90", "Bool"), ("d180", "Bool"), ("sw", "Bool"), ("sws", "Bool"), ("shz", "Bool"), ("nppa", "Int", 1, 2),
+          ("zo", "Int", 0, 1), ("seg", "Int", -1, 1), ("view", "Int", -1, 13), ("ax", "Int", 0, 2)]
+SEARCH["find_sym_op_bin0"] = dict(
+    theorems=["bridge_find_sym_op_bin0"], vars=_TREEV, real="decide (V ≥ 4) && V % 4 == 0 && decide (0 ≤ view) && decide (view < V) && !sws",
+    lets=[_IDX, _SYMY, "let o := y.symOpBin0 seg view ax"],
+    gen="Gen.find_sym_op_bin0 V d90 d180 sw shz (y.transformZ (C03.iabs seg) (if shz then 0 else ax)) (y.nppa seg) seg view ax", model=_TUP)
+SEARCH["find_sym_op_general_bin"] = dict(
+    theorems=["bridge_find_sym_op_general_bin"], vars=_TREEV + [("s", "Int", -1, 1)],
+    real="decide (V ≥ 4) && V % 4 == 0 && decide (0 ≤ view) && decide (view < V) && s != 0",
+    lets=[_IDX, _SYMY, "let o := y.symOpGeneral s seg view ax"],
+    gen="Gen.find_sym_op_general_bin V d90 d180 sw sws shz (y.transformZ (C03.iabs seg) (if shz then 0 else ax)) (y.nppa seg) s seg view ax", model=_TUP)
+SO_KERNELS = [k for k in SEARCH if k.startswith("so_")] + ["find_sym_op_bin0", "find_sym_op_general_bin"]
 GEN_DIR = ("StirVerif", "Gen")
 
 
